@@ -129,7 +129,7 @@ func runC03(w *World, r *Report) {
 	r.Rule("R-C03-2", "case/type agreement: inside `case T` (T numeric) of those routines every assertion to a numeric type asserts T, and every numeric value pushed or stored has static type T (comparisons push bool)", 300)
 	r.Rule("R-C03-3", "strict flag: a data.Normalize call in package bytecode that passes a variable constness flag passes the run-time strict flag, or lies on the not-strict edge", 5)
 	c03IsNumericAgrees(w, r)
-	r.Rule("R-C03-4", "++ and -- add an untyped constant: the Push that feeds the auto-increment opcode carries data.Constant(1)", 4)
+	r.Rule("R-C03-4", "++ and -- add or subtract the untyped constant 1: the Push that feeds the auto-increment opcode carries data.Constant(1), with the literal 1", 4)
 
 	dp := w.pkg("internal/language/data")
 	bp := w.pkg("internal/language/bytecode")
@@ -492,7 +492,7 @@ func runC03(w *World, r *Report) {
 					if c03PushesConstant(pc) {
 						r.Discharge("R-C03-4", key, w.pos(pc.Pos()), "data.Constant(1)")
 					} else {
-						r.Violate("R-C03-4", key, w.pos(pc.Pos()), "++/-- add a typed int 1: under strict type checking x++ on any other numeric type is rejected although x += 1 is accepted")
+						r.Violate("R-C03-4", key, w.pos(pc.Pos()), "the operand ++/-- push is not the untyped constant 1 (a typed int 1, or a computed step such as -1): under strict type checking x++ or x-- is then rejected for some numeric types although x += 1 / x -= 1 are accepted (-1 does not adapt losslessly to an unsigned type)")
 					}
 
 					break
@@ -523,8 +523,16 @@ func c03PushesConstant(pc *ssa.Call) bool {
 					if st, ok := r2.(*ssa.Store); ok {
 						if derivesFrom(st.Val, func(v ssa.Value) bool {
 							c, ok := v.(*ssa.Call)
+							if !ok || callID(c.Common()) != "internal/language/data.Constant" || len(c.Call.Args) != 1 {
+								return false
+							}
 
-							return ok && callID(c.Common()) == "internal/language/data.Constant"
+							// the step is the literal 1: a computed step (+1 / -1) is a
+							// different operand for "--", and -1 does not adapt losslessly
+							// to an unsigned type in strict mode
+							k, isC := constInt(c.Call.Args[0])
+
+							return isC && k == 1
 						}, nil) {
 							found = true
 						}
